@@ -89,8 +89,11 @@ RECURSIVE ApplyReading(_, _, _)
 ApplyReading(st, r, j) ==
   IF j > Len(r) \/ st.k # "ok" THEN st
   ELSE LET u == r[j].u IN
-       IF u \in st.seen THEN [st EXCEPT !.k = "ood"]                     \* the same unit twice: not specified
-       ELSE ApplyReading([st EXCEPT !.c = Put(st.c, u, [pw |-> st.cur, px |-> r[j].e]), !.last = u, !.seen = @ \cup {u}], r, j + 1)
+       \* the same unit twice (`km/m`, `m m`): the tool's unit map cannot hold two prefixes for one unit and may refuse
+       \* the expression; if it accepts it, the factors still multiply (`multi`, decided on SI value and dimensions)
+       IF u \in st.seen THEN ApplyReading([st EXCEPT !.multi = TRUE, !.last = u, !.fs = Append(@, [u |-> u, e |-> r[j].e, pw |-> st.cur])], r, j + 1)
+       ELSE ApplyReading([st EXCEPT !.c = Put(st.c, u, [pw |-> st.cur, px |-> r[j].e]), !.last = u, !.seen = @ \cup {u},
+                                    !.fs = Append(@, [u |-> u, e |-> r[j].e, pw |-> st.cur])], r, j + 1)
 
 RECURSIVE UnitExprFrom(_, _, _, _, _)
 UnitExprFrom(kinds, texts, i, to, st) ==
@@ -120,8 +123,17 @@ UnitExprFrom(kinds, texts, i, to, st) ==
               IF n = 1000000 THEN [st EXCEPT !.k = "ood"]
               ELSE IF n = 0 THEN [st EXCEPT !.k = "ood"]                 \* m^0: a zero power inside a unit, not specified
               ELSE UnitExprFrom(kinds, texts, j + 1, to,
-                                [st EXCEPT !.c = Put(st.c, st.last, [pw |-> n * st.cur, px |-> st.c[st.last].px]), !.last = ""])
+                                [st EXCEPT !.c = IF st.multi THEN @ ELSE Put(st.c, st.last, [pw |-> n * st.cur, px |-> st.c[st.last].px]), !.last = "",
+                                           !.fs = [@ EXCEPT ![Len(@)].pw = n * st.cur]])
     ELSE [st EXCEPT !.k = "err"]
 UnitExpr(kinds, texts, from, to) ==
-  UnitExprFrom(kinds, texts, from, to, [c |-> NoUnit, cur |-> 1, last |-> "", seen |-> {}, k |-> "ok"])
+  UnitExprFrom(kinds, texts, from, to, [c |-> NoUnit, cur |-> 1, last |-> "", seen |-> {}, k |-> "ok", multi |-> FALSE, fs |-> <<>>])
+\* scale and dimensions of a factor list <<[u, e, pw]>> (for expressions that name a unit more than once)
+RECURSIVE ScaleOfList(_, _), DimsOfList(_, _)
+ScaleOfList(fs, j) == IF j > Len(fs) THEN RInt(1)
+                      ELSE RMul(RPow(RMul(RPow(RInt(10), fs[j].e), Fac(fs[j].u)), fs[j].pw), ScaleOfList(fs, j + 1))
+DimsOfList(fs, j) == IF j > Len(fs) THEN Dim0
+                     ELSE LET d == DimsOfList(fs, j + 1)
+                              ud == UDim(fs[j].u) IN
+                          TLCEval([b \in BaseSet |-> d[b] + fs[j].pw * ud[b]])
 =============================================================================
